@@ -182,6 +182,10 @@ def run(ctx):
             if none and not is_err:
                 ok4 = False
                 chk.violation("R08.4", "no-owner", "a comma for which no owning operator is found does not end in Err", where)
+            if is_err and not none and not some:
+                ok4 = False
+                chk.violation("R08.4", "rejects-call", "the comma step can end in Err before the owning operator is even looked for: a well-formed call (nested in a second argument, say) is rejected (%s)" % [
+                    (rel.cstr(d[1])[:80], d[2]) for d in t.decisions if "Iterator::next(" not in rel.cstr(d[1])][-2:], where)
             if some and not none and is_err:
                 ok4 = False
                 chk.violation("R08.4", "rejects-call", "the comma step can end in Err although the owning operator was found: a well-formed call is rejected (%s)" % [
@@ -276,6 +280,9 @@ def run(ctx):
                     if S in _loop_syms(c) or "::last(" in rel.cstr(c):
                         # the test that decides about an emission
                         is_eq = isinstance(c, App) and c.fn in ("std::cmp::PartialEq::eq", "binop:Eq")
+                        acc = re.findall(r"::(first|last|get|index)\(", rel.cstr(c))
+                        if acc and "last" not in acc:
+                            probs.append("the emission test looks at `%s` of the record, but the emission consumes its top (pop): with two calls pending the inner one is never closed" % acc[0])
                         if not is_eq:
                             probs.append("the emission test is not an equality: %s" % rel.cstr(c)[:90])
                             continue
